@@ -122,7 +122,9 @@ def control_data(version, reset_frames, window_bits, cache=None):
 def reset_table(frame_offsets, uncomp_len, comp_len, entry_size=8, gap=0, nentries=None):
     n = len(frame_offsets) if nentries is None else nentries
     out = struct.pack('<IIIIQQQ', 2, n, entry_size, 0x28 + gap, uncomp_len, comp_len, FRAME) + bytes(gap)
-    for o in frame_offsets[:n]: out += struct.pack('<Q' if entry_size == 8 else '<I', o)
+    for o in frame_offsets[:n]:
+        if entry_size == 4: out += struct.pack('<I', o)
+        else: out += (struct.pack('<Q', o) + bytes(entry_size))[:entry_size]       # sizes other than 4 and 8: chmd falls back to SpanInfo
     return out
 
 
@@ -167,7 +169,7 @@ def _names(rng, k):
     return out
 
 
-def random_case(rng, size='small', version=None, chunk_size=None, density=None, index_levels=None, rtable=None, **_):
+def random_case(rng, size='small', version=None, chunk_size=None, density=None, index_levels=None, rtable=None, rtgap=None, **_):
     """random CHM; the keyword features pin a choice (chunk_size is raised to the
     smallest size that holds the longest entry), everything else is random"""
     total = pick_size(rng, size); k = rng.choice([1, 2, 3, 5, 8, 20, 60]) if size != 'small' else rng.choice([1, 2, 3, 5, 8, 20])
@@ -184,7 +186,7 @@ def random_case(rng, size='small', version=None, chunk_size=None, density=None, 
     if s1len:
         wb = rng.randint(15, 21); rframes = rng.choice([1, 2, 2, 4]); rb = rframes * FRAME
         padded = -(-s1len // rb) * rb
-        rt = rtable or rng.choice(['normal', 'normal', 'normal', 'entry4', 'missing', 'short'])
+        rt = rtable or rng.choice(['normal', 'normal', 'normal', 'normal', 'entry4', 'entry4', 'missing', 'missing', 'short', 'short', 'entry16', 'entry12'])
         e8 = rt in ('normal', 'entry4') and padded <= rb and rng.random() < 0.5
         toks = None; data = None
         if rng.random() < 0.5:
@@ -200,7 +202,7 @@ def random_case(rng, size='small', version=None, chunk_size=None, density=None, 
         sysfiles = [(CONTENT, content), (CONTROL, control_data(cver, rframes, wb)), (SPANINFO, struct.pack('<Q', s1len)),
                     (TLIST, '{7FC28940-9D31-11D0'.encode('utf-16le')), (NAMELIST, struct.pack('<HH', 0x1E, 2) + ''.join('%c%s\0' % (len(s), s) for s in ('Uncompressed', 'MSCompressed')).encode('utf-16le'))]
         if rt != 'missing':
-            sysfiles.append((RTABLE, reset_table(offs[:-1], s1len, offs[-1], 4 if rt == 'entry4' else 8, rng.choice([0, 0, 8]),
+            sysfiles.append((RTABLE, reset_table(offs[:-1], s1len, offs[-1], {'entry4': 4, 'entry16': 16, 'entry12': 12, 'entry2': 2}.get(rt, 8), rng.choice([0, 0, 8]) if rtgap is None else rtgap,
                                                  max(1, len(frames) // 2 // rframes * rframes) if rt == 'short' else None)))
         m.update(reset_frames=rframes, reset_intervals=padded // rb, control_version=cver, reset_table=rt, stream_bytes=s1len, source='tokens' if toks else 'data')
         meta['lzx'] = m
